@@ -113,6 +113,36 @@ fn c18(r: &mut Rng, thorough: bool, w: W) -> std::io::Result<()> {
         value: Value::I32(1000),
     };
     writeln!(w, "REAL {}", p_argument(&seedcase))?;
+    // exact ties of the premise: the sum is 0 (the offset cancels the product), 1, 2^63 - 1
+    for (v, q, off) in [
+        (5i64, 1.0f32, -5i64), (1000, 0.5, -500), (7, 0.25, -1), (0, 1.0, 0), (1, 1.0, 0), (200, 1.0, -199),
+        (4, 2.0, -8), (1 << 40, 1.0, -(1 << 40)), (3, 1.0, i64::MAX - 3), (0, 123.5, i64::MAX), (1, 0.0, 0), (9, 0.0, 7),
+    ] {
+        for signed in [false, true] {
+            for wide in [false, true] {
+                if !wide && (off > i32::MAX as i64 || off < i32::MIN as i64 || v > i32::MAX as i64) {
+                    continue;
+                }
+                let mut a = seedcase.clone();
+                a.type_info.kind = if signed {
+                    TypeInfoKind::SignedFixedPoint(if wide { FloatWidth::Width64 } else { FloatWidth::Width32 })
+                } else {
+                    TypeInfoKind::UnsignedFixedPoint(if wide { FloatWidth::Width64 } else { FloatWidth::Width32 })
+                };
+                a.fixed_point = Some(FixedPoint {
+                    quantization: q,
+                    offset: if wide { FixedPointValue::I64(off) } else { FixedPointValue::I32(off as i32) },
+                });
+                a.value = match (signed, wide) {
+                    (true, true) => Value::I64(v),
+                    (true, false) => Value::I32(v as i32),
+                    (false, true) => Value::U64(v as u64),
+                    (false, false) => Value::U32(v as u32),
+                };
+                writeln!(w, "REAL {}", p_argument(&a))?;
+            }
+        }
+    }
     for _ in 0..n {
         let a = match r.below(10) {
             0 | 1 => argument(r, false),
@@ -953,6 +983,27 @@ fn c16(r: &mut Rng, thorough: bool, w: W) -> std::io::Result<()> {
 
 fn c04(r: &mut Rng, thorough: bool, w: W) -> std::io::Result<()> {
     let n = if thorough { 500_000 } else { 10_000 };
+    // complete messages whose length field is at and near its limit, followed by more input
+    for total in [65519usize, 65520, 65521, 65534, 65535] {
+        let m = Message::new(
+            MessageConfig {
+                version: 1,
+                counter: 5,
+                endianness: Endianness::Big,
+                ecu_id: None,
+                session_id: None,
+                timestamp: None,
+                payload: PayloadContent::NonVerbose(7, vec![0x33; total - 8]),
+                extended_header_info: None,
+            },
+            Some(StorageHeader { timestamp: DltTimeStamp { seconds: 3, microseconds: 4 }, ecu_id: "EC".into() }),
+        );
+        let mut b = enc(&m);
+        b.extend_from_slice(&[0x44, 0x4c, 0x54, 0x01, 9, 9, 9]);
+        writeln!(w, "CONSUME {}", hex(&b))?;
+        writeln!(w, "CONS 1 - {}", hex(&b))?;
+        writeln!(w, "CONS 0 - {}", hex(&b[16..]))?;
+    }
     let ids = vec!["A".to_string(), "ABC".to_string(), "x".to_string(), "".to_string()];
     for i in 0..n {
         // weighted towards verbose messages whose arguments are shorter / longer than declared
@@ -1099,6 +1150,19 @@ fn c13(r: &mut Rng, thorough: bool, w: W) -> std::io::Result<()> {
                     cut += step;
                 }
             }
+        }
+    }
+    // an EMPTY string / raw field: alone, last, in the middle, with and without a trailing byte
+    for e in [Endianness::Little, Endianness::Big] {
+        for k in [TypeInfoKind::Raw, TypeInfoKind::StringType] {
+            let t = mk(&k);
+            let u16t = mk(&TypeInfoKind::Unsigned(TypeLength::BitLength16));
+            writeln!(w, "NVA {} 1 {} x0000", p_endian(e), p_type_info(&t))?;
+            writeln!(w, "NVA {} 1 {} x000077", p_endian(e), p_type_info(&t))?;
+            writeln!(w, "NVA {} 1 {} x00", p_endian(e), p_type_info(&t))?;
+            writeln!(w, "NVA {} 2 {} {} x12340000", p_endian(e), p_type_info(&u16t), p_type_info(&t))?;
+            writeln!(w, "NVA {} 2 {} {} x00001234", p_endian(e), p_type_info(&t), p_type_info(&u16t))?;
+            writeln!(w, "NVA {} 3 {} {} {} x000000000000", p_endian(e), p_type_info(&t), p_type_info(&t), p_type_info(&t))?;
         }
     }
     // the extreme declared lengths of a string / raw signal (the 16-bit prefix at its limit):
